@@ -3,8 +3,10 @@ package vsim
 import (
 	"fmt"
 	"os"
+	"sort"
 
 	"github.com/relab/hotstuff"
+	"github.com/relab/hotstuff/protocol/rules"
 	"github.com/relab/hotstuff/security/crypto"
 	"github.com/relab/hotstuff/verif/vbase"
 )
@@ -574,6 +576,210 @@ func RunSelectiveFetch(ruleset, scheme string, rng *vbase.Rng, r *vbase.Result, 
 		}
 		parentQC, _ = c.byzQC(byz, b)
 		parent = b
+	}
+	return done()
+}
+
+// RunCatchupLostFetch: n=4, all honest, fixed leader 1. Replica 4 is cut off (messages lost) for 4..6 views,
+// comes back and catches up through block requests; the reply to ONE of its requests, for a block below the one the
+// commit rule selects and above its last committed block, is lost. The catch-up must not commit anything above the
+// gap: the commit is retried as a whole with the next proposal.
+func RunCatchupLostFetch(variant int, ruleset, scheme string, rng *vbase.Rng, r *vbase.Result, enable func(*Monitors)) *Cluster {
+	cfg := Config{N: 4, Ruleset: ruleset, Scheme: scheme, Cache: 0, Leader: "script", Sched: []hotstuff.ID{1}, BatchSize: 1,
+		Profile: "directed:catchup-lost-fetch", ByzRules: map[hotstuff.ID]string{}, Label: fmt.Sprintf("catchup-lost-fetch/%d", variant)}
+	c, err := NewCluster(cfg, rng, r)
+	if err != nil {
+		r.Inconclusive("cannot build catchup-lost-fetch cluster: " + err.Error())
+		return nil
+	}
+	enable(c.Mon)
+	lag := c.Actors[3]
+	lead := c.Actors[0]
+	done := func() *Cluster { c.Mon.atEnd(); c.Close(); return c }
+	c.Start()
+	c.Step = 1
+	c.roundsUntil(30, func() bool { return lag.Node.VS.View() >= 5 && len(c.Mon.commits[lag.Idx]) >= 1 })
+	c.FaultSteps++
+	c.Cut = map[[2]int]bool{{3, 0}: true, {3, 1}: true, {3, 2}: true}
+	c.CutLoss = true
+	target := lead.Node.VS.View() + hotstuff.View(4+variant%3)
+	c.roundsUntil(40, func() bool { return lead.Node.VS.View() >= target })
+	c.Cut = nil
+	c.CutLoss = false
+	// the blocks replica 4 misses, lowest view first
+	var missing []*hotstuff.Block
+	for _, b := range c.W.Blocks.All() {
+		if _, ok := lag.M.Chain.LocalGet(b.Hash()); !ok {
+			missing = append(missing, b)
+		}
+	}
+	sort.Slice(missing, func(i, j int) bool { return missing[i].View() < missing[j].View() })
+	c.R.Obs("catchup_blocks_missed", int64(len(missing)))
+	if k := variant / 3 % 2; len(missing) > k+3 {
+		c.FetchDeny = map[hotstuff.Hash]int{missing[k].Hash(): 1}
+	}
+	c.roundsUntil(12, func() bool { return false })
+	c.R.Obs("catchup_fetch_replies_lost", int64(c.FetchLost))
+	return done()
+}
+
+// RunStaleLeader: n=4, round-robin, replica 4 Byzantine but voting and leading honestly at first. Honest replica 1
+// is cut off after it voted, while views go on among {2,3,4}. When the others reach a view L led by the Byzantine
+// replica, it brings replica 1 to view L with a genuine QC for view L-1 (replica 1 has neither voted nor timed out
+// in the views it skipped) and then sends it a well-formed block for the OLDER view L-1 - certificate, parent and
+// view order are all fine, but the designated leader of L-1 is somebody else. Replica 1 must not vote for it.
+func RunStaleLeader(variant int, ruleset, scheme string, rng *vbase.Rng, r *vbase.Result, enable func(*Monitors)) *Cluster {
+	cfg := Config{N: 4, Ruleset: ruleset, Scheme: scheme, Cache: uint([]int{0, 100}[variant%2]), Leader: "round-robin", BatchSize: 1,
+		Profile: "directed:stale-leader", ByzRules: map[hotstuff.ID]string{}, Scripted: []hotstuff.ID{4}, Label: fmt.Sprintf("stale-leader/%d", variant)}
+	c, err := NewCluster(cfg, rng, r)
+	if err != nil {
+		r.Inconclusive("cannot build stale-leader cluster: " + err.Error())
+		return nil
+	}
+	enable(c.Mon)
+	byz, R := c.Actors[3], c.Actors[0]
+	st := byz.Byz
+	done := func() *Cluster { c.Mon.atEnd(); c.Close(); return c }
+	voted := map[hotstuff.Hash]bool{}
+	proposed := map[hotstuff.View]bool{}
+	silentFrom := hotstuff.View(1 << 60)
+	byView := func(v hotstuff.View) *hotstuff.Block {
+		for _, b := range st.blocks {
+			if b.View() == v && c.publicLeader(v) == b.Proposer() {
+				return b
+			}
+		}
+		return nil
+	}
+	behave := func() {
+		for _, b := range append([]*hotstuff.Block(nil), st.blocks...) {
+			if voted[b.Hash()] || c.publicLeader(b.View()) != b.Proposer() {
+				continue
+			}
+			voted[b.Hash()] = true
+			pc, err := byz.M.Auth.CreatePartialCert(b)
+			if err != nil {
+				continue
+			}
+			next := c.publicLeader(b.View() + 1)
+			if next == byz.ID {
+				st.votes = append(st.votes, pc)
+			} else {
+				for _, o := range c.Actors {
+					if o.ID == next {
+						c.enqueue(byz, o, hotstuff.VoteMsg{ID: byz.ID, PartialCert: pc})
+					}
+				}
+			}
+		}
+		for _, b := range append([]*hotstuff.Block(nil), st.blocks...) {
+			v := b.View() + 1
+			if c.publicLeader(v) != byz.ID || proposed[v] || v >= silentFrom || c.publicLeader(b.View()) != b.Proposer() {
+				continue
+			}
+			if qc, ok := c.byzQC(byz, b); ok {
+				proposed[v] = true
+				nb := hotstuff.NewBlock(b.Hash(), qc, c.byzBatch(byz), v, byz.ID)
+				c.registerByzBlock(byz, nb)
+				st.blocks = append(st.blocks, nb)
+				voted[nb.Hash()] = true
+				c.trace(TraceEntry{Kind: "byz", From: byz.Name(), What: "lead-honestly", View: uint64(v)})
+				c.sendAll(byz, hotstuff.ProposeMsg{ID: byz.ID, Block: nb})
+				if pc, err := byz.M.Auth.CreatePartialCert(nb); err == nil {
+					for _, o := range c.Actors {
+						if o.ID == c.publicLeader(v+1) {
+							c.enqueue(byz, o, hotstuff.VoteMsg{ID: byz.ID, PartialCert: pc})
+						}
+					}
+				}
+			}
+		}
+	}
+	timedOut := map[hotstuff.View]bool{}
+	round := func() {
+		c.cmd.topUp()
+		c.lockstepRound(nil)
+		behave()
+		// join the others' timeouts like an honest replica would
+		for _, tm := range append([]hotstuff.TimeoutMsg(nil), st.timeouts...) {
+			if timedOut[tm.View] || tm.ID == byz.ID {
+				continue
+			}
+			timedOut[tm.View] = true
+			vs, err := byz.M.Auth.Sign(tm.View.ToBytes())
+			if err != nil {
+				continue
+			}
+			own := hotstuff.TimeoutMsg{ID: byz.ID, View: tm.View, ViewSignature: vs, SyncInfo: hotstuff.NewSyncInfoWith(st.highQC())}
+			if ruleset == rules.NameFastHotStuff {
+				if ms, err := byz.M.Auth.Sign(own.ToBytes()); err == nil {
+					own.MsgSignature = ms
+				}
+			}
+			c.sendAll(byz, own)
+		}
+		c.Step++
+		c.Mon.afterStep()
+	}
+	c.Start()
+	c.Step = 1
+	// phase A: everybody, until replica 1 is in a view > 3+variant/2 that neither it nor the Byzantine replica leads (nor the next one)
+	warm := hotstuff.View(3 + variant/2)
+	ready := func() bool {
+		v := R.Node.VS.View()
+		return v > warm && c.publicLeader(v) != R.ID && c.publicLeader(v+1) != R.ID && c.publicLeader(v) != byz.ID
+	}
+	for i := 0; i < 60 && !ready() && c.Panic == nil && len(c.Mon.Viol) == 0; i++ {
+		round()
+	}
+	// phase B: replica 1 is cut off (loss); the others go on until the Byzantine replica holds the QC that starts a view L it leads
+	c.FaultSteps++
+	c.Cut = map[[2]int]bool{{0, 1}: true, {0, 2}: true, {0, 3}: true}
+	c.CutLoss = true
+	cutView := R.Node.VS.View()
+	L := c.nextLedView(byz.ID, cutView+2)
+	silentFrom = L
+	var qcPrev hotstuff.QuorumCert
+	have := false
+	for i := 0; i < 60 && !have && c.Panic == nil && len(c.Mon.Viol) == 0; i++ {
+		round()
+		if b := byView(L - 1); b != nil {
+			qcPrev, have = c.byzQC(byz, b)
+		}
+	}
+	if !have {
+		c.R.Obs("stale_leader_setup_failed", 1)
+		return done()
+	}
+	// phase C: heal; replica 1 is brought to view L by the genuine QC of view L-1
+	c.Cut = nil
+	c.CutLoss = false
+	c.enqueue(byz, R, hotstuff.NewViewMsg{ID: byz.ID, SyncInfo: hotstuff.NewSyncInfoWith(qcPrev)})
+	for i := 0; i < 4 && R.Node.VS.View() < L; i++ {
+		round()
+	}
+	c.R.Obs("stale_leader_target_view_gap", int64(R.Node.VS.View()-cutView))
+	if R.Node.VS.View() != L {
+		c.R.Obs("stale_leader_setup_failed", 1)
+		return done()
+	}
+	// the stale proposal: view L-1-k (not led by the Byzantine replica), certificate and parent taken from the real chain
+	pv := L - 1 - hotstuff.View(variant%2)
+	if c.publicLeader(pv) == byz.ID {
+		pv--
+	}
+	real := byView(pv)
+	if real == nil {
+		c.R.Obs("stale_leader_setup_failed", 1)
+		return done()
+	}
+	stale := hotstuff.NewBlock(real.Parent(), real.QuorumCert(), c.byzBatch(byz), pv, byz.ID)
+	c.registerByzBlock(byz, stale)
+	c.trace(TraceEntry{Kind: "byz", From: byz.Name(), What: "stale-view-propose", View: uint64(pv)})
+	c.sendAll(byz, hotstuff.ProposeMsg{ID: byz.ID, Block: stale})
+	c.R.Obs("stale_leader_proposals_sent", 1)
+	for i := 0; i < 3; i++ {
+		round()
 	}
 	return done()
 }
